@@ -464,8 +464,23 @@ def generate():
     return "\n".join(out) + "\n", errors
 
 
+def write_translated(path):
+    """the Python->Lean translation of the decision functions (harness/py2lean.py); written next to Consts.lean"""
+    import py2lean
+    text, errors = py2lean.generate(os.path.join(SRC, "serif"))
+    old = open(path).read() if os.path.exists(path) else None
+    if old != text:
+        tmp = path + ".tmp%d" % os.getpid()
+        with open(tmp, "w") as f:
+            f.write(text)
+        os.replace(tmp, path)
+    return errors
+
+
 def write(path):
+    terr = write_translated(os.path.join(os.path.dirname(path), "Translated.lean"))
     text, errors = generate()
+    errors = errors + [f"py2lean {n}: {e}" for n, e in terr]
     old = None
     if os.path.exists(path):
         old = open(path).read()
